@@ -235,6 +235,13 @@ func (x *Exec) axiom(t *Term) {
 	if t.isTrue() {
 		return
 	}
+	if t.Bound {
+		// a fact about a term built under a quantifier: state it for all values
+		// of the bound variables (a free bound variable would be an undeclared
+		// symbol in the query)
+		x.axiomIfClosed(t)
+		return
+	}
 	if x.axiomSet[t] {
 		return
 	}
